@@ -110,7 +110,7 @@ func fieldName(t types.Type, i int) string {
 		t = p.Elem()
 	}
 	if s, ok := t.Underlying().(*types.Struct); ok && i < s.NumFields() {
-		return s.Field(i).Name()
+		return canonField(t, s.Field(i).Name())
 	}
 	return fmt.Sprintf("f%d", i)
 }
@@ -140,7 +140,7 @@ func funcShort(f *ssa.Function) string {
 			t = p.Elem()
 		}
 		if n, ok := t.(*types.Named); ok {
-			return n.Obj().Name() + "." + f.Name()
+			return canonType(n) + "." + f.Name()
 		}
 	}
 	if f.Pkg != nil && f.Parent() == nil {
@@ -321,7 +321,7 @@ func isNamedType(t types.Type, pkgSuffix, name string) bool {
 	if !ok {
 		return false
 	}
-	if n.Obj().Name() != name {
+	if canonType(n) != name {
 		return false
 	}
 	if n.Obj().Pkg() == nil {
